@@ -10,8 +10,7 @@ VARIABLES ps,      \* [Parts -> P fold state without `next']
           sg,      \* [Parts -> getLength state for query part q; len relative]
           sr, sw,  \* [Parts -> read / write state; off relative]
           last,    \* the field appended by the last step (TLC's trace then shows the sequence)
-          cls,     \* input class of the last step: "restart" = P lets the field share the byte of a bit field that
-                   \* was itself placed by the same-first-bit rule; "other"
+          cls,     \* "unspecified" = the last step was the unspecified case (P admits two placements); "other"
           ok
 vars == <<ps, sg, sr, sw, last, cls, ok>>
 
@@ -30,33 +29,38 @@ MCInit == /\ ps = [p \in Parts |-> Rel(PInit)]
 MCStep(ki, q) ==
   LET k == Kinds[ki]
       pa == Abs(ps[q])                                   \* P state, next = 8 (arbitrary origin)
-      pl == PPlace(pa, k, 2)
       g0 == [len |-> pa.next + sg[q].d, max |-> Big, pfull |-> sg[q].pfull, pfirst |-> sg[q].pfirst]
       g1 == GStep(g0, k, q, q)
-      r0 == [off |-> pa.next + sr[q].d, pfull |-> sr[q].pfull, pfirst |-> sr[q].pfirst, err |-> FALSE, pos |-> NoPos]
-      r1 == RStep(r0, k, q, q, IF k.var THEN pl.st.next ELSE Big)
       w0 == [off |-> pa.next + sw[q].d, pfull |-> sw[q].pfull, pfirst |-> sw[q].pfirst, pos |-> NoPos]
       w1 == WStep(w0, k, q, q, 2)
-      glen == IF k.var THEN pl.st.next ELSE g1.len       \* getLength with a variable field: see above
+      r0 == [off |-> pa.next + sr[q].d, pfull |-> sr[q].pfull, pfirst |-> sr[q].pfirst, err |-> FALSE, pos |-> NoPos]
+      R1(pl) == RStep(r0, k, q, q, IF k.var THEN pl.st.next ELSE Big)
+      Glen(pl) == IF k.var THEN pl.st.next ELSE g1.len    \* getLength with a variable field: see above
+      Match(pl) == /\ ~R1(pl).err
+                   /\ R1(pl).pos = [b |-> pl.b, n |-> pl.n, bits |-> pl.bits]
+                   /\ w1.pos = [b |-> pl.b, n |-> pl.n, bits |-> pl.bits]
+                   /\ Glen(pl) = pl.st.next /\ R1(pl).off = pl.st.next /\ w1.off = pl.st.next
+      C == PChoices(pa, k)                               \* admissible placements (two in the unspecified case)
+      fits == {c \in C : Match(PPlace(pa, k, 2, c))}     \* ... that all three implementations realise
+      c == IF fits # {} THEN CHOOSE x \in fits : TRUE ELSE CHOOSE x \in C : TRUE
+      pl == PPlace(pa, k, 2, c)
+      r1 == R1(pl)
   IN /\ ps' = [ps EXCEPT ![q] = Rel(pl.st)]
-     /\ sg' = [sg EXCEPT ![q] = [d |-> glen - pl.st.next, pfull |-> g1.pfull, pfirst |-> g1.pfirst]]
+     /\ sg' = [sg EXCEPT ![q] = [d |-> Glen(pl) - pl.st.next, pfull |-> g1.pfull, pfirst |-> g1.pfirst]]
      /\ sr' = [sr EXCEPT ![q] = [d |-> r1.off - pl.st.next, pfull |-> r1.pfull, pfirst |-> r1.pfirst]]
      /\ sw' = [sw EXCEPT ![q] = [d |-> w1.off - pl.st.next, pfull |-> w1.pfull, pfirst |-> w1.pfirst]]
      /\ last' = <<k.t, q>>
-     /\ cls' = IF ps[q].rs /\ PShares(pa, k) THEN "restart" ELSE "other"
-     /\ ok' = /\ ~r1.err
-              /\ r1.pos = [b |-> pl.b, n |-> pl.n, bits |-> pl.bits]
-              /\ w1.pos = [b |-> pl.b, n |-> pl.n, bits |-> pl.bits]
-              /\ glen = pl.st.next /\ r1.off = pl.st.next /\ w1.off = pl.st.next
+     /\ cls' = IF PAmbiguous(pa, k) THEN "unspecified" ELSE "other"
+     /\ ok' = (fits # {})
 
 MCNext == ok /\ \E ki \in 1..NK, q \in Parts : PSpecified(Abs(ps[q]), Kinds[ki]) /\ MCStep(ki, q)
 
-(* S => P: every appended field is where P says, lengths agree *)
+(* S => P: every appended field is at an admissible place, the same for getLength/read/write *)
 MCConforms == ok \/ ~PrintT(<<"VF", "SP", cls, last>>)
 (* while S conforms its bookkeeping is a function of P's fold state (an abstraction map exists) *)
 MCRefinement == ok => \A q \in Parts :
    /\ sg[q].d = 0 /\ sr[q].d = 0 /\ sw[q].d = 0
    /\ sr[q].pfull = sw[q].pfull /\ sr[q].pfirst = sw[q].pfirst
    /\ sg[q].pfull[q] = sr[q].pfull /\ sg[q].pfirst[q] = sr[q].pfirst
-   /\ (ps[q].open = -1) <=> sr[q].pfull
+   /\ SGuardAfter => ((ps[q].open = -1) <=> sr[q].pfull)
 =============================================================================
